@@ -33,7 +33,7 @@ from ..core import Ctx
 from ..loader import AnalysisError, FunctionInfo, walk_scope
 from ..resolve import last_attr
 from ..util import HTTP_UNARY, SERVE_ONE, SERVE_UNARY, calls, impl_invocations, mini_eval, names_in, str_consts_in, txt
-from ._g6_helpers import infeasible_edges, names_assigned
+from ._g6_helpers import FlowSlicer, infeasible_edges, names_assigned, resolves_to
 
 META = {
     "text": "RF-TABLE agreement of describe columns across _DESCRIBE_FIELDS / build_describe_batch / compute_protocol_hash / "
@@ -109,39 +109,30 @@ def _column_calls(fi: FunctionInfo) -> list[tuple[ast.Call, str]]:
     return out
 
 
+def _column_leaf(e: ast.AST) -> tuple[set[str], set[int]]:
+    labels: set[str] = set()
+    skip: set[int] = set()
+    for n in ast.walk(e):
+        if isinstance(n, ast.Call) and last_attr(n) == "column" and n.args and isinstance(n.args[0], ast.Constant) and isinstance(n.args[0].value, str):
+            labels.add(n.args[0].value)
+            for x in ast.walk(n):
+                skip.add(id(x))
+    return labels, skip
+
+
 class Slicer:
-    """Backward slice of locals to the describe columns they derive from (flow-insensitive)."""
+    """Backward slice of an expression to the describe columns it derives from — flow-sensitive
+    (reaching definitions on the CFG), so a scratch variable re-used for two columns is sliced right."""
 
     def __init__(self, fi: FunctionInfo) -> None:
         self.fi = fi
-        self.memo: dict[str, set[str]] = {}
-        self.busy: set[str] = set()
+        self.fs = FlowSlicer(fi, _column_leaf)
 
-    def roots(self, e: ast.AST) -> set[str]:
-        out: set[str] = set()
-        skip: set[int] = set()
-        for n in ast.walk(e):
-            if isinstance(n, ast.Call) and last_attr(n) == "column" and n.args and isinstance(n.args[0], ast.Constant) and isinstance(n.args[0].value, str):
-                out.add(n.args[0].value)
-                for x in ast.walk(n):
-                    skip.add(id(x))
-        for n in ast.walk(e):
-            if isinstance(n, ast.Name) and id(n) not in skip:
-                out |= self.name_roots(n.id)
-        return out
+    def roots(self, e: ast.AST, at: ast.AST | None = None) -> set[str]:
+        return self.fs.roots(e, at if at is not None else e)
 
-    def name_roots(self, name: str) -> set[str]:
-        if name in self.memo:
-            return self.memo[name]
-        if name in self.busy:
-            return set()
-        self.busy.add(name)
-        out: set[str] = set()
-        for rhs in names_assigned(self.fi, name):
-            out |= self.roots(rhs)
-        self.busy.discard(name)
-        self.memo[name] = out
-        return out
+    def name_roots(self, name: str, at: ast.AST) -> set[str]:
+        return self.fs.roots(ast.Name(id=name, ctx=ast.Load()), at)
 
 
 def _kw(call: ast.Call, name: str) -> ast.expr | None:
@@ -254,7 +245,7 @@ def _check_columns(ctx: Ctx) -> tuple[set[str], dict[str, set[str]]]:
                 deps.append(cur.test)
             cur = hcfg.parent.get(id(cur))
         for a in deps:
-            r |= sl.roots(a)
+            r |= sl.roots(a, u)
         for a in u.args:
             nm = names_in(a)
             if hparams and hparams[0] in nm:
@@ -266,7 +257,7 @@ def _check_columns(ctx: Ctx) -> tuple[set[str], dict[str, set[str]]]:
                 if hparams and nmx != hparams[0] and hparams[0] in {y for rhs in names_assigned(hashf, nmx) for y in names_in(rhs)}:
                     name_dep = True
         consumed |= r
-        upd_roots.append((u, set().union(*[sl.roots(a) for a in u.args]) if u.args else set()))
+        upd_roots.append((u, set().union(*[sl.roots(a, u) for a in u.args]) if u.args else set()))
     if whole_batch:
         consumed |= set(fnames)
     for col in sorted(wire & set(fnames)):
@@ -292,9 +283,9 @@ def _check_columns(ctx: Ctx) -> tuple[set[str], dict[str, set[str]]]:
         for v in domain:
             env: dict[str, object] = {}
             for n in ast.walk(arg):
-                if isinstance(n, ast.Call) and last_attr(n) == "as_py" and sl.roots(n) == {col}:
+                if isinstance(n, ast.Call) and last_attr(n) == "as_py" and sl.roots(n, u) == {col}:
                     env[txt(n)] = v
-                elif isinstance(n, ast.Name) and sl.name_roots(n.id) == {col}:
+                elif isinstance(n, ast.Name) and sl.name_roots(n.id, u) == {col}:
                     env[n.id] = v
             images.append(mini_eval(arg, env))
         distinct = len({repr(x) for x in images}) == len(domain) and all(isinstance(x, (bytes, str)) for x in images)
@@ -322,7 +313,7 @@ def _check_columns(ctx: Ctx) -> tuple[set[str], dict[str, set[str]]]:
     ctx.check(not leaks, "RF-TAINT", "hashed-columns-exclude-nonwire-attributes", build, None,
               ok="no hashed column derives from doc / param_defaults / param_docs / param_types / result_type",
               bad=f"hashed column(s) {leaks} derive from non-wire attributes: editing a docstring or a default changes protocol_hash")
-    hc = [c for c in calls(build) if any(t.fq == HASH for t in ctx.res.resolve(build, c))]
+    hc = [c for c in calls(build) if resolves_to(ctx.res, build, c, HASH)]
     if len(hc) != 1:
         raise AnalysisError("anchor=compute_protocol_hash call in build_describe_batch")
     bad_args = sorted(names_in(ast.Tuple(elts=list(hc[0].args) + [k.value for k in hc[0].keywords], ctx=ast.Load())) & {p for p in params if "server" in p or p == "protocol_version"})
@@ -348,7 +339,7 @@ def _check_columns(ctx: Ctx) -> tuple[set[str], dict[str, set[str]]]:
         if f not in given:
             ctx.fail("RF-TABLE", f"parse-field-source:{f}", parse, md_calls[0], f"MethodDescription.{f} is not populated from the response (left at its default): the description is not faithful")
             continue
-        got = psl.roots(given[f])
+        got = psl.roots(given[f], md_calls[0])
         ctx.check(got == {col}, "RF-TABLE", f"parse-field-source:{f}", parse, given[f],
                   ok=f"MethodDescription.{f} <- column {col}", bad=f"MethodDescription.{f} is read from column(s) {sorted(got) or 'nothing'} instead of {col}")
     return consumed, col_attrs
@@ -375,11 +366,11 @@ def _check_metadata(ctx: Ctx) -> None:
                 written[k] = n.value
     if not written:
         raise AnalysisError("anchor=metadata dict in build_describe_batch")
-    hash_vars = {t.id for n in walk_scope(build.node) if isinstance(n, ast.Assign) and isinstance(n.value, ast.Call) and any(x.fq == HASH for x in ctx.res.resolve(build, n.value)) for t in n.targets if isinstance(t, ast.Name)}
+    hash_vars = {t.id for n in walk_scope(build.node) if isinstance(n, ast.Assign) and isinstance(n.value, ast.Call) and resolves_to(ctx.res, build, n.value, HASH) for t in n.targets if isinstance(t, ast.Name)}
 
     def kind_of(v: ast.expr) -> str:
         nm = names_in(v)
-        if nm & hash_vars or (isinstance(v, ast.Call) and any(x.fq == HASH for x in ctx.res.resolve(build, v))):
+        if nm & hash_vars or (isinstance(v, ast.Call) and resolves_to(ctx.res, build, v, HASH)):
             return "hash"
         ps = sorted(nm & set(params))
         if ps:
@@ -497,7 +488,7 @@ def _check_server(ctx: Ctx) -> None:
         raise AnalysisError("C39: __describe__ registration value is not an RpcMethodInfo(...) call")
 
     # batch built from the complete method table, before the synthetic entry exists
-    bcalls = [c for c in calls(init) if any(t.fq == BUILD for t in ctx.res.resolve(init, c))]
+    bcalls = [c for c in calls(init) if resolves_to(ctx.res, init, c, BUILD)]
     if len(bcalls) != 1:
         raise AnalysisError("anchor=build_describe_batch call in RpcServer.__init__")
     bc = bcalls[0]
@@ -573,7 +564,7 @@ def _check_server(ctx: Ctx) -> None:
     # ---- clients hand batch + metadata to the parser
     for spec in (INTRO + ":introspect", "vgi_rpc/http/_client.py:http_introspect"):
         fi = ctx.fn(spec)
-        pc = [c for c in calls(fi) if any(t.fq == PARSE for t in ctx.res.resolve(fi, c))]
+        pc = [c for c in calls(fi) if resolves_to(ctx.res, fi, c, PARSE)]
         if not pc:
             raise AnalysisError(f"anchor=parse_describe_batch call in {fi.fq}")
         c = pc[0]
